@@ -65,7 +65,7 @@ def common_judge(case, o, mo, pid):
     # ---------------- model sanity (model vs oracle) --------------------------------------------------
     ms = [tc.parse_model(l, eo) for l in mo]
     if any(isinstance(m, str) for m in ms):
-        probs.append(Problem("harness", f"model answered {[m for m in ms if isinstance(m, str)]} on a valid input"))
+        probs.append(tc.model_problem(f"model answered {[m for m in ms if isinstance(m, str)]} on a valid input", pid))
         return probs, ctx
     m0 = ms[0]
     m1 = ms[1] if len(ms) > 1 else (m0 if m0["i"] == i_impl else None)
@@ -77,15 +77,19 @@ def common_judge(case, o, mo, pid):
             ex = tc.metric_from_probs(xm, rows[g], pr)
             ey = tc.metric_from_probs(ym, rows[g], pr)
             if (ex, ey) != m["expected"][j]:
-                probs.append(Problem("harness", f"model expectedMetric {m['expected'][j]} vs oracle {(ex, ey)}"))
+                probs.append(tc.model_problem(f"model expectedMetric {m['expected'][j]} vs oracle {(ex, ey)}", pid))
             if ex != xg:
-                probs.append(Problem("harness", f"model rule of group {g} has {xm}={ex}, grid value {xg}"))
+                probs.append(tc.model_problem(f"model rule of group {g} has {xm}={ex}, grid value {xg}", pid))
             if eo and ey != m["ybest"]:
-                probs.append(Problem("harness", f"model rule of group {g} has {ym}={ey}, y_best {m['ybest']}"))
+                probs.append(tc.model_problem(f"model rule of group {g} has {ym}={ey}, y_best {m['ybest']}", pid))
             if any(p < 0 or p > 1 for p in pr):
-                probs.append(Problem("harness", f"model rule of group {g} has probabilities outside [0,1]"))
+                probs.append(tc.model_problem(f"model rule of group {g} has probabilities outside [0,1]", pid))
         if not m["supporting"]:
-            probs.append(Problem("harness", "model hull is not supporting (monotone-chain invariant broken)"))
+            probs.append(tc.model_problem("model hull is not supporting (monotone-chain invariant broken)", pid))
+    if any(p.kind == "property" for p in probs):
+        # the implementation itself fails the oracle on this input: a model that follows the (changed) source through
+        # the translator is not a bug of this machinery
+        probs = [p for p in probs if p.kind != "harness"]
     # ---------------- correspondence implementation vs model ------------------------------------------
     if m1 is None:
         probs.append(Problem("correspondence", f"implementation's grid index {i_impl} is outside the grid",
@@ -214,8 +218,10 @@ class CHECK(ThresholdCheck):
     rule = ("datasets of 2-5 groups with 2-30 rows each, every group containing both labels (plus ~4% deliberately "
             "degenerate datasets checked for rejection only); scores over 2-6 dyadic levels (heavy ties), distinct "
             "dyadics k/64, or hard 0/1 predictions; all 6 constraints x admissible objectives x flip x grid sizes "
-            "{1,2,3,5,7,10,100,1000}; y / sensitive_features as ndarray, list, Series or DataFrame, group names str "
-            "or int; rows shuffled. distinct = distinct (configuration, multiset of rows); non-trivial = inside the "
+            "{1,2,3,5,7,10,100,1000}; y / sensitive_features as ndarray (1-d or (n,1)), list (sensitive features also as list of 1-element "
+            "lists), Series or DataFrame (y column named or 0), group names str or int; for the pandas containers the index LABELS of y, sensitive_features and X are "
+            "drawn independently from {default, a non-identity permutation of 0..n-1, offset +100, shuffled strings} "
+            "while rows stay paired by position; rows shuffled. distinct = distinct (configuration, multiset of rows); non-trivial = inside the "
             "quantifier with >= 2 groups. thorough additionally enumerates ALL multisets of (group,label,level) rows "
             "up to size 7 over 2 groups x 3 levels (14445 datasets) and up to size 8 over 3 groups x 2 levels (3568), the 62 (constraint, objective, flip) configurations and grid sizes cycling over the enumeration.")
     explanation = ("parity theorems proved over the Lean model for all inputs; correspondence compares the "
